@@ -90,6 +90,29 @@ theorem C38_tight (a : AlgoParams) (ha : RowOk a) (cs : Int) (h : 8192 ≤ cs)
     simp [secureLen, rawLenOfBody, symHeaderLength, hp, hb, hr'] <;>
     go_divmod <;> (try split) <;> go_divmod <;> omega
 
+/-- monotone in the negotiated chunk size: a peer that grants a larger chunk
+    never makes the channel place LESS body into one chunk -/
+theorem C38_maxBody_mono (a : AlgoParams) (ha : RowOk a) (cs cs' : Int) (h : 8192 ≤ cs)
+    (hle : cs ≤ cs') (hcs : cs' < 4294967296) :
+    maxBody a cs ≤ maxBody a cs' := by
+  obtain ⟨hb, hp, hs0, hs1, hr⟩ := ha
+  have hr' : ¬ (a.remoteSignatureLength > 256) := by omega
+  rcases hb with hb | hb <;>
+    simp only [maxBody, Gen.setMaximumBodySize, hp, hb, hr', decide_false] <;>
+    go_divmod <;> simp <;> omega
+
+/-- the fixed per-chunk overhead is bounded: the channel gives up at most the
+    headers, the signature, the padding byte and one cipher block of the chunk
+    (so the body size is not merely safe but close to the best possible) -/
+theorem C38_overhead_bounded (a : AlgoParams) (ha : RowOk a) (cs : Int) (h : 8192 ≤ cs)
+    (hcs : cs < 4294967296) :
+    cs - maxBody a cs ≤ 16 + 8 + a.signatureLength + 1 + (a.blockSize - 1) := by
+  obtain ⟨hb, hp, hs0, hs1, hr⟩ := ha
+  have hr' : ¬ (a.remoteSignatureLength > 256) := by omega
+  rcases hb with hb | hb <;>
+    simp only [maxBody, Gen.setMaximumBodySize, hp, hb, hr', decide_false] <;>
+    go_divmod <;> simp <;> omega
+
 /-- the property for the policies the code supports: all clauses at once -/
 theorem C38_table (a : AlgoParams) (ha : a ∈ Gen.symmetricRows) (m : Mode) (cs : Int)
     (h : 8192 ≤ cs) (hcs : cs < 4294967296) (n : Int) (hn0 : 0 ≤ n) (hn : n ≤ maxBody a cs) :
